@@ -98,10 +98,16 @@ DGRAMS = {
     'oversized': [b'x' * 2000, b'{"pad":"' + b'x' * 1500 + b'"}', b'\xff' * 1100, b'[' * 1100,
                   b'[' * 1000 + b']' * 1000, b'{"pad":"' + 'é'.encode() * 600 + b'"}',
                   b'{"pad":"x' + 'é'.encode() * 600 + b'"}', b'1' * 1025, b'"' + b's' * 1100 + b'"',
-                  b' ' * 1025 + b'null', b'{"SECoP":"Xiscover"}' + b' ' * 1010],
+                  b' ' * 1025 + b'null', b'{"SECoP":"Xiscover"}' + b' ' * 1010, b'x' * 3000,
+                  b'{"SECoP":"nope","pad":"' + b'p' * 3000 + b'"}', b'\xff' * 4000],
+    # hundreds .. thousands of nested arrays / objects: within the receive buffer, and beyond it (1.5 - 4 kB)
+    'deep': [b'[' * 1000, b'[' * 1024, b'[' * 512 + b']' * 512, b'{"a":' * 204, b' ' * 20 + b'[' * 1000,
+             b'[' * 996 + b']' * 28, b'[[1],' + b'[' * 1000],
+    'oversized_deep': [b'[' * 1500, b'[' * 2000, b'[' * 4000, b'{"a":' * 800, b'[' * 1030 + b']' * 1030,
+                       b'[' * 1600 + b']' * 1600, b'{"a":' * 400 + b'1' + b'}' * 400],
     'discover_extra': [b'{"SECoP":"discover","x":1}', b'{"a":null,"SECoP":"discover"}'],
     'oversized_discover': [b'{"SECoP":"discover"}' + b' ' * 1100, b' ' * 1100 + b'{"SECoP":"discover"}',
-                           b'{"SECoP":"discover"}' + b' ' * 1010 + b'junk'],
+                           b'{"SECoP":"discover"}' + b' ' * 1010 + b'junk', b'{"SECoP":"discover"}' + b' ' * 3000],
 }
 
 
@@ -123,12 +129,37 @@ def gclass(ch):
     return 5 if o < 0x10000 else 6
 
 
+def nesting(data):
+    """maximal bracket nesting outside strings (what a recursive JSON decoder has to descend)"""
+    depth = top = 0
+    instr = esc = False
+    for c in data:
+        if instr:
+            if esc:
+                esc = False
+            elif c == 0x5c:
+                esc = True
+            elif c == 0x22:
+                instr = False
+        elif c == 0x22:
+            instr = True
+        elif c in (0x5b, 0x7b):
+            depth += 1
+            top = max(top, depth)
+        elif c in (0x5d, 0x7d):
+            depth -= 1
+    return top
+
+
 def classify(data):
     """datagram bytes -> class of the specification (standard decoders decide utf-8 / JSON)"""
     if len(data) > RECV_LIMIT:
         a, b = _classify_small(data), _classify_small(data[:RECV_LIMIT])
-        return 'oversized_discover' if {a, b} & {'discover', 'discover_extra'} else 'oversized'
-    return _classify_small(data)
+        if {a, b} & {'discover', 'discover_extra'}:
+            return 'oversized_discover'
+        return 'oversized_deep' if nesting(data) >= 200 else 'oversized'
+    c = _classify_small(data)
+    return 'deep' if nesting(data) >= 200 and c in ('badjson', 'list', 'object') else c
 
 
 def _classify_small(data):
@@ -331,6 +362,52 @@ def alpha_msg(raw, case, ports, ref_desc=None, sender=None, dest=None, with_glyp
 
 # ------------------------------------------------------------------ execution of one responder life
 
+PY311_DEPTH = 995      # CPython 3.6 .. 3.11: json's C scanner raises RecursionError at this nesting (measured with
+#                        3.6, 3.7, 3.8, 3.9, 3.10, 3.11 at the default recursion limit; 3.12: 1497; 3.13: none)
+
+
+class Json311:
+    """what frappy.protocol.discovery sees as `json` when the case asks for interp='py311': the json module of
+    this interpreter, except that decoding refuses deep nesting like the older interpreters frappy supports"""
+
+    def __init__(self, real):
+        self._real = real
+
+    def __getattr__(self, name):
+        return getattr(self._real, name)
+
+    def loads(self, text, *a, **k):
+        raw = text.encode('utf-8', 'surrogatepass') if isinstance(text, str) else bytes(text)
+        depth = 0
+        deep_at = None
+        instr = esc = False
+        for pos, c in enumerate(raw):
+            if instr:
+                if esc:
+                    esc = False
+                elif c == 0x5c:
+                    esc = True
+                elif c == 0x22:
+                    instr = False
+            elif c == 0x22:
+                instr = True
+            elif c in (0x5b, 0x7b):
+                depth += 1
+                if depth >= PY311_DEPTH:
+                    deep_at = pos
+                    break
+            elif c in (0x5d, 0x7d):
+                depth -= 1
+        if deep_at is None:
+            return self._real.loads(text, *a, **k)
+        try:
+            self._real.loads(text, *a, **k)
+        except self._real.JSONDecodeError as e:
+            if len(text[:e.pos].encode('utf-8', 'surrogatepass') if isinstance(text, str) else text[:e.pos]) < deep_at:
+                raise                    # a syntax error is met before the decoder gets that deep
+        raise RecursionError('maximum recursion depth exceeded while decoding a JSON array from a unicode string')
+
+
 def execute(case):
     """case: eq, desc, ifaces, bcast, max (None = the real constant), script [[cls, hex]...]
     -> trace (list of events in the vocabulary of Trace_Discovery)"""
@@ -360,12 +437,17 @@ def execute(case):
     sock.script = script
     sock.owner = udp
     reason, exc = 'returned', ''
+    real_json = D.json
+    if case.get('interp') == 'py311':
+        D.json = Json311(real_json)
     try:
         udp.run()
     except ScriptEnd:
         reason = 'script_end'
     except BaseException as e:      # whatever escapes the loop ends the responder thread
         reason, exc = 'raised', type(e).__name__
+    finally:
+        D.json = real_json
     marks = sock.marks + [len(sock.sent)]
 
     def msgs(lo, hi, sender):
@@ -393,6 +475,7 @@ def signature(clause, case, trace, l):
     if ev.get('ev') == 'dgram':
         sig['group'] = group(bytes.fromhex(case['script'][l - 3][1]))
         sig['exc'] = ev.get('exc', '')
+        sig['interp'] = case.get('interp', 'native')
         if not clause.startswith('dgram.alive'):
             sig['cls'] = ev['cls']
     elif ev.get('ev') == 'build':
@@ -541,7 +624,8 @@ def loop_case(beh, idx, seed):
         script.append([st['cls'], v[(salt + 5 * i) % len(v)].hex()])
     script.append(DISCOVER)
     return {'eq': EQ_IDS[salt % len(EQ_IDS)], 'desc': 'Sample énvironment "x"\n', 'max': None, 'bcast': True,
-            'ifaces': IFACES[shape][(salt // 2) % len(IFACES[shape])], 'script': script}
+            'ifaces': IFACES[shape][(salt // 2) % len(IFACES[shape])], 'script': script,
+            'interp': 'py311' if salt % 3 == 0 else 'native'}
 
 
 def _msgs_ok(ev, mx):
@@ -764,6 +848,10 @@ def rand_dgram(rnd):
     if r < 0.55:
         cls = rnd.choice(list(DGRAMS))
         data = rnd.choice(DGRAMS[cls])
+    elif r < 0.62:
+        opener = rnd.choice([b'[', b'[', b'{"k":', b' [', b'[[],'])
+        n = rnd.choice([200, 600, 990, 994, 995, 996, 1000, 1024, 1400, 1496, 1497, 1500, 2000, 4000])
+        data = opener * n + rnd.choice([b'', b']' * n, b'1', b' ' * 50])
     elif r < 0.7:
         data = bytes(rnd.randrange(256) for _ in range(rnd.randint(0, 40)))
     elif r < 0.85:
@@ -832,7 +920,8 @@ def _random_loop(seed):
     disc()
     script = [rand_dgram(rnd) for _ in range(rnd.randint(1, 10))] + [DISCOVER]
     base = {'eq': rnd.choice(EQ_IDS), 'desc': rnd.choice(['', 'plain', 'désc "q"\n\U0001f604']),
-            'ifaces': rand_ifaces(rnd), 'bcast': rnd.random() < 0.5, 'max': None}
+            'ifaces': rand_ifaces(rnd), 'bcast': rnd.random() < 0.5, 'max': None,
+            'interp': 'py311' if rnd.random() < 0.3 else 'native'}
     res = []
     while script:
         case = dict(base, script=script)
